@@ -598,7 +598,6 @@ func ruleJSON5(c *Ctx) {
 
 var _ = types.Typ
 
-
 func max64(a, b int64) int64 {
 	if a > b {
 		return a
